@@ -164,11 +164,11 @@ def Hnd(kind='default'):
     """Handle types: default policy (type tag u64 0, empty -1), file handle (tag 1, empty <0), custom tag."""
     if kind == 'default':
         return T('hnd', 'nop::Handle<nop::DefaultHandlePolicy<int, -1>>',
-                 {"k": "hnd", "tt": {"k": "int", "w": 8, "s": False}, "tv": word(0, 8), "empty": "eq-1"},
+                 {"k": "hnd", "tt": {"k": "int", "w": 8, "s": False}, "tv": word(0, 8), "ev": word(-1, 8)},
                  flags={"handle": True})
     if kind == 'file':
         return T('fhnd', 'nop::FileHandle',
-                 {"k": "hnd", "tt": {"k": "int", "w": 8, "s": False}, "tv": word(1, 8), "empty": "neg"},
+                 {"k": "hnd", "tt": {"k": "int", "w": 8, "s": False}, "tv": word(1, 8), "ev": word(-1, 8)},
                  flags={"handle": True})
     if kind == 'tag16':
         text = ('struct HPTag16 { using Type = int; static constexpr int Default() { return -1; }\n'
@@ -177,7 +177,7 @@ def Hnd(kind='default'):
                 '  static int Release(int* v) { int t = *v; *v = -1; return t; }\n'
                 '  static constexpr std::uint16_t HandleType() { return 300; } };')
         return T('hnd16', 'nop::Handle<pool::HPTag16>',
-                 {"k": "hnd", "tt": {"k": "int", "w": 2, "s": False}, "tv": word(300, 2), "empty": "eq-1"},
+                 {"k": "hnd", "tt": {"k": "int", "w": 2, "s": False}, "tv": word(300, 2), "ev": word(-1, 8)},
                  decls=[('HPTag16', text)], flags={"handle": True})
     raise ValueError(kind)
 
